@@ -508,3 +508,10 @@ package dataflow
 //@   option havoc:PopulateGraphFromSummary
 //@   requires g != nil && node != nil && g.AnalyzerState != nil
 //@   ensures callsite_registered: result != nil ==> has(result.Callsites, node.CallSite()) && result.Callsites[node.CallSite()] != nil
+
+// ---------------------------------------------------------------------------
+// Visitor nodes are immutable once built (only their children list grows): the
+// traversals' per-iteration clauses may therefore read the current node's fields at
+// the end of the iteration. Checked by a scan of every store in /repo.
+//@ property C01 C02 C03 C05 C13
+//@ immutable VisitorNode.NodeWithTrace.Node VisitorNode.NodeWithTrace.Trace VisitorNode.NodeWithTrace.ClosureTrace VisitorNodeStatus.Kind VisitorNode.Prev VisitorNode.Depth
